@@ -69,34 +69,45 @@ Definition is_dir (e : entry) : bool := match ekind e with KDir => true | _ => f
 (* ---- clean_command ---------------------------------------------------------------------------- *)
 
 (* Cleaned fs n msgs : exit 0, directory now fs, "Removed n files", one "clean <name>" line per msgs
-   Aborted fs n msgs e : `?` propagated the error: exit 1, no "Removed" line *)
+   Aborted fs n msgs e : `?` propagated the error: exit 1, no "Removed" line
+   Incomplete fs n msgs k : the sweep went over every entry, "Removed n files" is printed, then
+                            `bail!("k bytecode file(s) could not be removed")`: exit 1 *)
 Inductive outcome :=
 | Cleaned (fs : list entry) (removed : N) (msgs : list str)
-| Aborted (fs : list entry) (removed : N) (msgs : list str) (e : errno).
+| Aborted (fs : list entry) (removed : N) (msgs : list str) (e : errno)
+| Incomplete (fs : list entry) (removed : N) (msgs : list str) (failed : N).
 
 (* the `for path in paths` loop: `todo` = entries still to be yielded by read_dir, `fs` = the
-   directory as it is now, `removed` / `msgs` = the mutable counter and the lines printed so far.
-   `skip_dirs` = the repaired code (fixes/clean-skip-dirs.diff: `if path.file_type()?.is_dir() { continue }`);
-   with `false` it is the code as found (F12). *)
-Fixpoint clean_loop (skip_dirs : bool) (todo fs : list entry) (removed : N) (msgs : list str) : outcome :=
+   directory as it is now, `removed` / `msgs` / `failed` = the mutable counters and the lines printed so far.
+   `skip_dirs` = fixes/clean-skip-dirs.diff (`if path.file_type()?.is_dir() { continue }`); with `false`
+   it is the code as found (F12).
+   `keep_going` = fixes/clean-continues-after-failure.diff: a failed remove_file is reported on stderr,
+   counted, and the loop goes on (`if let Err(err) = remove_file(..) { eprintln!(..); failed += 1; continue }`);
+   with `false` the error leaves the function through `?` (the code before that repair). *)
+Fixpoint clean_loop (skip_dirs keep_going : bool) (todo fs : list entry) (removed : N) (msgs : list str) (failed : N) : outcome :=
   match todo with
-  | [] => Cleaned fs removed msgs
+  | [] => if failed =? 0 then Cleaned fs removed msgs else Incomplete fs removed msgs failed
   | e :: rest =>
-      if skip_dirs && is_dir e then clean_loop skip_dirs rest fs removed msgs
+      if skip_dirs && is_dir e then clean_loop skip_dirs keep_going rest fs removed msgs failed
       else if ext_is_mmm (name e) then
         match remove_file (name e) fs with
-        | RmErr c => Aborted fs removed msgs c
-        | RmOk fs' => clean_loop skip_dirs rest fs' (removed + 1) (msgs ++ [name e])
+        | RmErr c => if keep_going then clean_loop skip_dirs keep_going rest fs removed msgs (failed + 1)
+                     else Aborted fs removed msgs c
+        | RmOk fs' => clean_loop skip_dirs keep_going rest fs' (removed + 1) (msgs ++ [name e]) failed
         end
-      else clean_loop skip_dirs rest fs removed msgs
+      else clean_loop skip_dirs keep_going rest fs removed msgs failed
   end.
 
 (* `order` is the sequence read_dir yields, `fs` the directory *)
-Definition clean_in (order fs : list entry) : outcome := clean_loop true order fs 0 [].
+Definition clean_in (order fs : list entry) : outcome := clean_loop true true order fs 0 [] 0.
 Definition clean (es : list entry) : outcome := clean_in es es.
 
-(* the code before the repair *)
-Definition clean_unfixed (es : list entry) : outcome := clean_loop false es es 0 [].
+(* the code before both repairs *)
+Definition clean_unfixed (es : list entry) : outcome := clean_loop false false es es 0 [] 0.
+
+(* the second repair alone (directories are handed to remove_file, a failure does not stop the sweep):
+   the only way the model's filesystem makes remove_file fail on a listed entry *)
+Definition clean_keep_going_only (es : list entry) : outcome := clean_loop false true es es 0 [] 0.
 
 (* ---- the specification's vocabulary ------------------------------------------------------------ *)
 
@@ -105,14 +116,15 @@ Definition doomed (e : entry) : bool := negb (is_dir e) && ext_is_mmm (name e).
 Definition spared (e : entry) : bool := negb (doomed e).
 
 (* flat summary used by the correspondence driver:
-   (status 0 = exit 0 / 1 = EISDIR / 2 = ENOENT, removed, content ids left, content ids of printed names) *)
+   (status 0 = exit 0 / 1 = EISDIR / 2 = ENOENT / 3 = swept, some not removed; removed, content ids left, printed names) *)
 Definition ids (fs : list entry) : list N := map content fs.
 
 Definition status_code (o : outcome) : N :=
-  match o with Cleaned _ _ _ => 0 | Aborted _ _ _ EISDIR => 1 | Aborted _ _ _ ENOENT => 2 end.
+  match o with Cleaned _ _ _ => 0 | Aborted _ _ _ EISDIR => 1 | Aborted _ _ _ ENOENT => 2 | Incomplete _ _ _ _ => 3 end.
 
 Definition summary (o : outcome) : N * N * list N * list str :=
   match o with
   | Cleaned fs n m => (status_code o, n, ids fs, m)
   | Aborted fs n m _ => (status_code o, n, ids fs, m)
+  | Incomplete fs n m _ => (status_code o, n, ids fs, m)
   end.
